@@ -100,6 +100,10 @@ def c05(pid, tier, seed, selftest=False):
     # ... and `kestrel encrypt -t NAME -f NAME`: the file opens under the private key of the entry called exactly NAME
     cfgs += [{"cmd": "encrypt", "cause": "none", "prior": "absent", "inp": inp, "outp": "file", "kr": kr, "long": lng, "alias": not lng, "sender": "first"}
              for inp in ("file", "stdin") for kr in ("opt", "env", "both") for lng in (False, True)]
+    # ... and keyrings in which "alice" (or "bob") stands for two keys, or alice's key has two names
+    cfgs += [{"cmd": cmd, "cause": "malformed_keyring", "prior": "absent", "inp": "file", "outp": "file", "kr": kr, "long": False, "alias": False,
+              "sender": "first", "krbad": kb}
+             for cmd in ("encrypt", "decrypt") for kr in ("opt", "env") for kb in ("dup_name", "dup_name_first", "dup_key", "dup_key_first", "dup_name_bob")]
     cevs = checks_cli.run_configs(rep, pid, "cli-sender", w, cfgs, ["C05_"])
     rep.extra["cli_sender_reports"] = {k: sum(1 for e in cevs if e["named"] == k) for k in set(e["named"] for e in cevs)}
     rep.exhaustive = True
